@@ -199,7 +199,7 @@ class Gen:
                 return L.fn(r.choice(["equals", "eq"]), self.num(d + 1), self.num(d + 1))
             return L.fn(r.choice(["equals", "eq"]), self.text(d + 1), self.text(d + 1))
         if c == "anyall":
-            k = r.choice(["any", "all", "missing", "all2", "missing2"])
+            k = r.choice(["all", "missing", "all2", "missing2"])   # bare any() also sees print()'s hash-named once-markers (CHOICES.md)
             if k in ("any", "all", "missing"):
                 return L.fn(k)
             return L.fn(k[:-1], self.nonterm(self.href_any()), self.nonterm(self.href_any()))
@@ -343,8 +343,30 @@ class Gen:
             opts += ["sum", "sum"]
             if strict_any:
                 opts += ["subtotal"]
-        opts += ["countb"]
+        opts += ["countb", "peek", "get", "put"]
+        if strict_any:
+            opts += ["every", "track"]
         c = r.choice(opts)
+        if c == "every":
+            x = self.href(r.choice(strict_any)) if r.random() < 0.6 else L.fn("exists", self.href_any())
+            return L.fn("every", x, L.term(r.choice([1, 2, 3])), quals=[self.fresh("e")])
+        if c == "track":
+            val = r.choice([self.num, self.text])(2)
+            return L.fn("track", self.href(r.choice(strict_any)), val, quals=[self.fresh("tr")])
+        if c == "peek":
+            return L.assign(L.var(self.fresh("pk")), L.fn("peek", L.term(r.choice(["stk1", "stk2"])), L.term(r.choice([0, 1, 3]))))
+        if c == "get":
+            names = self.numvars + self.anyvars + ["stk1", "nosuch"]
+            nm = r.choice(names)
+            if nm.startswith("stk"):
+                return L.assign(L.var(self.fresh("g")), L.fn("get", L.term(nm), L.term(r.choice([0, 1, 5]))))
+            return L.assign(L.var(self.fresh("g")), L.fn("get", L.term(nm)))
+        if c == "put":
+            nm = self.fresh("pt")
+            val = L.term(r.choice([1, 7, "ab"])) if r.random() < 0.5 else (self.href(r.choice(strict_any)) if strict_any else L.term(3))
+            if r.random() < 0.5:
+                return L.when(self.boolean(2) if r.random() < 0.5 else L.fn("yes"), L.fn("put", L.term(nm), val))
+            return L.when(L.fn("yes"), L.fn("put", L.term(nm), L.term(r.choice(["k1", "k2"])), val))
         if c == "counter":
             if r.random() < 0.5:
                 return L.fn("counter", quals=[self.fresh("c")])
